@@ -1,1 +1,53 @@
-Require Import Base Solve.
+(* C12 -- create_solution_from dilutes a stock as requested and conserves material. *)
+Require Import Base Units UnitsThm Contents Container ContainerThm ContainerThm2 Dilute Solve SolveThm CsfThm HistoryThm.
+
+(* pure solvent: for every multi-component stock satisfying the invariant (enzymes as bystanders included), every non-enzyme solute
+   and solvent, every numerator / denominator / quantity base unit: *)
+Theorem C12_sound : forall cf src solute solvent c q name src' new,
+  Inv cf src -> wf_subst solvent -> is_enzyme solvent = false -> wf_subst solute -> is_enzyme solute = false ->
+  0 < total_in cf (cont src) (P0, BG) ->
+  create_solution_from cf src solute c solvent q name = Ok (src', new) ->
+  total_in cf (cont new) (P0, qbase q) == qv q /\
+  conv_stored cf solute (get solute (cont new)) (P0, cnum c) == cval c * total_in cf (cont new) (P0, cden c) /\
+  (forall k, k <> solvent -> get k (cont src') + get k (cont new) == get k (cont src)) /\
+  get solvent (cont src) <= get solvent (cont src') + get solvent (cont new) /\
+  (exists f, 0 <= f /\ f <= 1 /\ forall k, get k (cont src') == get k (cont src) * (1 - f)) /\
+  Inv cf src' /\ Inv cf new.
+Proof. exact csf_sound. Qed.
+Print Assumptions C12_sound.
+
+(* the linear system the code solves, by unit *)
+Theorem C12_system : forall mx my s c q rows, csf_system mx my s c q = Ok rows ->
+  exists t b, top_of mx my s (cnum c) = Some t /\ bot_of mx my (cden c) = Some b /\
+    rows = [([cval c * fst b - fst t; cval c * snd b - snd t], 0);
+            (match bot_of mx my (qbase q) with Some r => [fst r; snd r] | None => [0; 0] end, qv q)].
+Proof. exact csf_system_spec. Qed.
+Print Assumptions C12_system.
+
+(* a transfer by volume moves the same fraction of everything (aliquots keep intensive quantities) *)
+Theorem C12_aliquot : forall cf src dst q s' d',
+  qbase q = BL -> Inv cf src -> Inv cf dst -> transfer cf src dst q = Ok (s', d') ->
+  exists r, 0 <= r /\ r <= 1 /\ r * (vol src * pmult (vol_pfx cf)) == qv q /\
+    (forall u, total_in cf (cont d') u == total_in cf (cont dst) u + total_in cf (cont src) u * r) /\
+    (forall k, get k (cont d') == get k (cont dst) + get k (cont src) * r) /\
+    (forall k, get k (cont s') == get k (cont src) * (1 - r)).
+Proof. exact transfer_by_volume. Qed.
+Print Assumptions C12_aliquot.
+
+(* container solvent: all three outputs satisfy the invariant (nothing negative, volumes consistent); conservation follows from
+   C01 applied to the two transfers the result is built from *)
+Theorem C12_container_solvent_inv : forall cf src solute t k q name s' k' c,
+  Inv cf src -> Inv cf k -> create_solution_from_c cf src solute t k q name = Ok ((s', k'), c) -> Inv cf s' /\ Inv cf k' /\ Inv cf c.
+Proof. exact create_solution_from_c_inv. Qed.
+Print Assumptions C12_container_solvent_inv.
+
+(* refusals: a solved amount of stock or of solvent that is negative (a target above the stock) is refused *)
+Theorem C12_negative_solution_refused : forall mx my s c q rows x y,
+  csf_system mx my s c q = Ok rows -> gauss 2 rows = Some [x; y] -> (x < 0 \/ y < 0) -> csf_solve mx my s c q = Err EValue.
+Proof.
+  intros mx my s c q rows x y Hs Hg Hneg. unfold csf_solve, bind. rewrite Hs, Hg.
+  destruct Hneg as [Hx|Hy].
+  - apply Qltb_lt in Hx. rewrite Hx. reflexivity.
+  - apply Qltb_lt in Hy. rewrite Hy. rewrite orb_true_r. reflexivity.
+Qed.
+Print Assumptions C12_negative_solution_refused.
